@@ -120,6 +120,7 @@ impl Qcow2IoOps for Qcow2IoUring {
 
         match res {
             Err(_) => Err("tokio-uring write failed".into()),
+            Ok(done) if done != buf.len() => Err("tokio-uring short write".into()),
             Ok(_) => Ok(()),
         }
     }
